@@ -925,6 +925,19 @@ class StateEngine(object):
                     self.event_dispatcher.acknowledge(event_id)
                 event_ids[i] = None
 
+    def branches_terminated(self, execution_arn):
+        """
+        True if any Map or Parallel state of the execution has been marked as
+        terminated by a failed Branch. A Map or Parallel state can also fail
+        without any of its Branches failing (e.g. its ResultSelector fails),
+        in which case no Branch needs cancelling and the results held for the
+        Map and Parallel states enclosing it must be left alone.
+        """
+        branch_metadata = self.branch_metadata.get(execution_arn)
+        return branch_metadata != None and any(
+            "terminated" in r for r in branch_metadata.results.values()
+        )
+
     def check_pending_results(self, execution_arn):
         """
         Check the branch_results for the current execution. If any of them are
@@ -1617,7 +1630,7 @@ class StateEngine(object):
                             """
                             if (
                                 (state_type == "Map" or state_type == "Parallel")
-                                and execution_arn in self.branch_metadata
+                                and self.branches_terminated(execution_arn)
                             ):
                                 self.check_pending_results(execution_arn)
 
@@ -1730,7 +1743,7 @@ class StateEngine(object):
                             (cancel and acknowledge the sibling Branches/Iterations)
                             before transitioning to the Catcher's Next state.
                             """
-                            if execution_arn in self.branch_metadata:
+                            if self.branches_terminated(execution_arn):
                                 self.check_pending_results(execution_arn)
 
                         etype, emessage = self.change_state(
